@@ -7,4 +7,5 @@ mkdir -p ../.build
 gcc -O2 -shared -fPIC -o ../.build/libverif_env.so shim/entropy.c -lpthread -ldl
 python3 gen_shadow.py >/dev/null
 cp /repo/Cargo.lock Cargo.lock
-cargo build --release --offline
+cargo build --release --offline --target-dir "$PWD/../.build/sessim"
+(cd a3host && cp /repo/Cargo.lock Cargo.lock && cargo +nightly build --offline --target-dir "$PWD/../../.build/a3")
